@@ -1,9 +1,9 @@
 (* C08 -- Location and feature geometry: slicing, mirroring and ordering are exact.
-   Only statements here; proofs are in proof/C08_Lemmas.v and proof/C08_Geom.v. *)
+   Only statements here; proofs are in proof/C08_Lemmas.v, C08_Geom.v, C08_Depth.v, C08_Compose.v and C08_Operands.v. *)
 From Coq Require Import List ZArith NArith Bool Permutation.
 From Coq.Strings Require Import Byte.
 Import ListNotations.
-From SV Require Import Text G_flags C08_Model C08_Lemmas C08_Geom C08_Depth.
+From SV Require Import Text G_flags C08_Model C08_Lemmas C08_Geom C08_Depth C08_Compose C08_Operands.
 Local Open Scope Z_scope.
 
 (* the regenerated flag values are what the hand-written model assumes: '+' and '-' are the stranded members,
@@ -286,6 +286,130 @@ Theorem C08_sort_fixpoint : forall rev l, ordered_fts rev l = true -> sort_fts r
 Proof. exact sort_fts_id. Qed.
 Print Assumptions C08_sort_fixpoint.
 
+(* ---- composition laws (round 6; all windows, all integers, no box) ---- *)
+(* one location: clipping twice is clipping once with the intersected window (the second window is read in the coordinates
+   of the first result, i.e. shifted by r1) and the summed shift; a location survives both cuts iff it overlaps that window *)
+Theorem C08_clip_clip : forall a1 b1 r1 a2 b2 r2 l,
+  clip a2 b2 r2 (clip a1 b1 r1 l) = clip (win_lo a1 a2 r1) (win_hi b1 b2 r1) (r1 + r2) l /\
+  overlaps_win a1 b1 l && overlaps_win a2 b2 (clip a1 b1 r1 l) = overlaps_win (win_lo a1 a2 r1) (win_hi b1 b2 r1) l /\
+  win_lo a1 a2 r1 = Z.max a1 (a2 + r1) /\ win_hi b1 b2 r1 = Z.min b1 (b2 + r1).
+Proof. exact (fun a1 b1 r1 a2 b2 r2 l => conj (clip_clip a1 b1 r1 a2 b2 r2 l) (conj (overlaps_clip a1 b1 r1 a2 b2 l) (conj eq_refl eq_refl))). Qed.
+Print Assumptions C08_clip_clip.
+
+(* the declarative slice composes, for arbitrary lists (no hypothesis) ... *)
+Theorem C08_slice_slice_spec : forall a1 b1 r1 a2 b2 r2 fts,
+  spec_slice a2 b2 r2 (spec_slice a1 b1 r1 fts) = spec_slice (win_lo a1 a2 r1) (win_hi b1 b2 r1) (r1 + r2) fts.
+Proof. exact spec_slice_twice. Qed.
+Print Assumptions C08_slice_slice_spec.
+
+(* ... and so does FeatureList.slice: fts.slice(s1, e1, rel=r1).slice(s2, e2, rel=r2) is the single call
+   fts.slice(max(s1, s2 + r1), min(e1, e2 + r1), rel=r1 + r2), open sides standing for -+sys.maxsize *)
+Theorem C08_slice_slice : forall s1 e1 r1 s2 e2 r2 fts k, wf_fts fts = true ->
+  slice s1 e1 r1 fts = Some k ->
+  slice s2 e2 r2 k =
+  slice (Some (win_lo (bound s1 (- maxsize)) (bound s2 (- maxsize)) r1)) (Some (win_hi (bound e1 maxsize) (bound e2 maxsize) r1)) (r1 + r2) fts.
+Proof. exact slice_slice. Qed.
+Print Assumptions C08_slice_slice.
+
+(* Defect._reverse is a permutation of bit positions (0<->1, 2<->3, 4<->5, the rest fixed), hence commutes with | *)
+Theorem C08_defect_reverse_bits : forall d p q i,
+  N.testbit (defect_reverse d) i = N.testbit d (swapbit i) /\
+  defect_reverse (N.lor p q) = N.lor (defect_reverse p) (defect_reverse q) /\
+  swapbit i = (if (i <? 6)%N then N.lxor i 1 else i).
+Proof. exact (fun d p q i => conj (testbit_defect_reverse d i) (conj (defect_reverse_lor p q) eq_refl)). Qed.
+Print Assumptions C08_defect_reverse_bits.
+
+(* one location: mirroring the clipped location = clipping the mirrored location with the mirrored window *)
+Theorem C08_mirror_clip : forall L L' a b r l,
+  mirror L' (clip a b r l) = clip (L - b) (L - a) (L - L' - r) (mirror L l) /\
+  overlaps_win (L - b) (L - a) (mirror L l) = overlaps_win a b l.
+Proof. exact (fun L L' a b r l => conj (mirror_clip L L' a b r l) (overlaps_mirror L a b l)). Qed.
+Print Assumptions C08_mirror_clip.
+
+(* stranded features: fts.slice(s, e, rel=r).rc(L') = fts.rc(L).slice(L - e, L - s, rel=L - L' - r); with r = s and L' = e - s
+   this is "cut the piece, then mirror it on its own length" = "mirror the sequence, then cut the mirrored piece" *)
+Theorem C08_rc_slice_commute : forall L L' s e r fts k, wf_fts fts = true -> forallb ft_stranded fts = true ->
+  slice s e r fts = Some k ->
+  exists m, fts_rc L fts = Some m /\
+    fts_rc L' k = slice (Some (L - bound e maxsize)) (Some (L - bound s (- maxsize))) (L - L' - r) m.
+Proof. exact rc_slice_commute_model. Qed.
+Print Assumptions C08_rc_slice_commute.
+
+(* features of any strand: both routes give the same features with the same locations, up to the order of locations *)
+Theorem C08_rc_slice_commute_perm : forall L L' a b r fts,
+  Forall2 (fun g h => fmeta g = fmeta h /\ Permutation (flocs g) (flocs h))
+          (map (spec_rc_ft L') (spec_slice a b r fts))
+          (spec_slice (L - b) (L - a) (L - L' - r) (map (spec_rc_ft L) fts)).
+Proof. exact rc_slice_commute_perm. Qed.
+Print Assumptions C08_rc_slice_commute_perm.
+
+(* exactness cannot be claimed without strand: clipping creates a tie on one route only (same root as F31) *)
+Theorem C08_rc_slice_commute_refuted :
+  wf_ft commute_witness = true /\ ft_stranded commute_witness = false /\
+  map (spec_rc_ft 4) (spec_slice 0 4 0 [commute_witness]) <> spec_slice (10 - 4) (10 - 0) (10 - 4 - 0) (map (spec_rc_ft 10) [commute_witness]).
+Proof. exact rc_slice_commute_refuted. Qed.
+Print Assumptions C08_rc_slice_commute_refuted.
+
+(* ---- operand types of <, <=, >, >= and overlaps() (round 6) ---- *)
+(* a comparison answers exactly for the combinations of the table cmp_accepts; an operand that is neither a LocationTuple
+   nor a Feature is always a TypeError (also a plain tuple, the base class, on either side) *)
+Theorem C08_cmp_operands : forall o x y,
+  ((exists b, py_cmp o x y = CVal b) <-> cmp_accepts o x y = true) /\
+  (locs_of x = None \/ locs_of y = None -> py_cmp o x y = CRaise).
+Proof. exact (fun o x y => conj (cmp_table o x y) (cmp_foreign o x y)). Qed.
+Print Assumptions C08_cmp_operands.
+
+(* every answer that is not decided by two different seqids is the comparison of the covered ranges *)
+Theorem C08_cmp_operands_value : forall o x y b, py_cmp o x y = CVal b -> seqids_decide x y = false ->
+  exists t u, locs_of x = Some t /\ locs_of y = Some u /\ b = tuple_cmp o t u.
+Proof. exact cmp_value. Qed.
+Print Assumptions C08_cmp_operands_value.
+
+(* Feature < Feature looks at the seqids first; None against a seqid is a TypeError *)
+Theorem C08_cmp_seqid_first : forall p q t u, p <> q ->
+  py_cmp CLt (OpFeat (Some p) t) (OpFeat (Some q) u) = CVal (str_ltb p q) /\
+  py_cmp CGt (OpFeat (Some p) t) (OpFeat (Some q) u) = CVal (str_ltb q p) /\
+  py_cmp CLt (OpFeat None t) (OpFeat (Some q) u) = CRaise /\ py_cmp CLt (OpFeat (Some p) t) (OpFeat None u) = CRaise.
+Proof. exact cmp_seqid_first. Qed.
+Print Assumptions C08_cmp_seqid_first.
+
+(* the order of seqids is a strict total order *)
+Theorem C08_seqid_order : forall s t u,
+  str_ltb s s = false /\ (str_ltb s t = true -> str_ltb t u = true -> str_ltb s u = true) /\
+  ((str_ltb s t = true /\ s <> t /\ str_ltb t s = false) \/ (str_ltb s t = false /\ s = t /\ str_ltb t s = false) \/
+   (str_ltb s t = false /\ s <> t /\ str_ltb t s = true)).
+Proof. exact (fun s t u => conj (str_ltb_irrefl s) (conj (str_ltb_trans s t u) (str_ltb_trichotomy s t))). Qed.
+Print Assumptions C08_seqid_order.
+
+(* overlaps(): accepted receiver/argument combinations, value = intersection of the covered ranges, agreement of both directions *)
+Theorem C08_overlaps_operands : forall x y,
+  (forall b, overlaps_call x y = Some (CVal b) ->
+     exists t u, locs_of x = Some t /\ locs_of y = Some u /\ b = lt_overlaps t u /\
+                 match x, y with OpTuple _, OpFeat _ _ => False | _, _ => True end) /\
+  (forall t u, locs_of x = Some t -> locs_of y = Some u ->
+     match x, y with OpTuple _, OpFeat _ _ => overlaps_call x y = Some CRaise | _, _ => overlaps_call x y = Some (CVal (lt_overlaps t u)) end) /\
+  (locs_of x <> None -> locs_of y = None -> overlaps_call x y = Some CRaise) /\
+  (forall b b', overlaps_call x y = Some (CVal b) -> overlaps_call y x = Some (CVal b') -> b = b').
+Proof. exact overlaps_table. Qed.
+Print Assumptions C08_overlaps_operands.
+
+(* ---- Location(start, stop): which values are taken (round 6) ---- *)
+(* accepted iff both arguments are numbers with start < stop (int, bool, numpy integer, float alike); None is a TypeError *)
+Theorem C08_location_args : forall a b,
+  (forall x y, location_args a b = LAccept x y <-> twice a = Some x /\ twice b = Some y /\ x < y) /\
+  (location_args a b = LTypeError <-> a = KNone \/ b = KNone) /\
+  (location_args a b = LValueError <-> exists x y, twice a = Some x /\ twice b = Some y /\ x >= y).
+Proof. exact location_args_spec. Qed.
+Print Assumptions C08_location_args.
+
+(* integer-valued arguments of every kind are accepted exactly when the integer constructor of the model accepts them *)
+Theorem C08_location_args_int : forall a b za zb s d m, int_value a = Some za -> int_value b = Some zb -> is_strand s = true ->
+  twice a = Some (2 * za) /\ twice b = Some (2 * zb) /\
+  (location_args a b = LAccept (2 * za) (2 * zb) <-> mk_location za zb s d m = Some (mkLoc za zb s d m)) /\
+  (location_args a b = LValueError <-> mk_location za zb s d m = None).
+Proof. exact location_args_int. Qed.
+Print Assumptions C08_location_args_int.
+
 (* ---- non-vacuity: concrete inputs meeting the hypotheses ---- *)
 (* a minus-strand feature with three locations, one of them cut on each side by the window [3,12), shifted by 3 *)
 Example C08_witness_slice :
@@ -298,3 +422,14 @@ Example C08_witness_mirror :
   feature_rc 20 ex_feature = Some ex_mirrored /\ feature_rc 20 ex_mirrored = Some ex_feature /\
   build ex_raw = Some [ex_feature] /\ inv_locs (flocs ex_feature) = true.
 Proof. exact ex_mirror_ok. Qed.
+(* round 6: a stranded feature cut twice / cut and mirrored (non-empty results), an accepted mixed comparison, typed coordinates *)
+Example C08_witness_round6 :
+  wf_fts [ex_feature] = true /\ forallb ft_stranded [ex_feature] = true /\
+  slice (Some 3) (Some 12) 3 [ex_feature] = Some ex_sliced /\
+  slice (Some 1) (Some 5) 1 ex_sliced = slice (Some (win_lo 3 1 3)) (Some (win_hi 12 5 3)) (3 + 1) [ex_feature] /\
+  slice (Some 1) (Some 5) 1 ex_sliced <> Some [] /\
+  (exists m, fts_rc 20 [ex_feature] = Some m /\ fts_rc 9 ex_sliced = slice (Some (20 - 12)) (Some (20 - 3)) (20 - 9 - 3) m /\ fts_rc 9 ex_sliced <> Some []) /\
+  cmp_accepts CLt (OpFeat None (flocs ex_feature)) (OpTuple (flocs ex_feature)) = true /\
+  py_cmp CGt (OpFeat (Some [x61]) (flocs ex_feature)) (OpFeat (Some [x62]) (flocs ex_feature)) = CVal false /\
+  location_args (KBool false) (KHalf 3) = LAccept 0 3 /\ int_value (KHalf 4) = Some 2.
+Proof. exact ex_round6_ok. Qed.
